@@ -49,6 +49,17 @@ def extract_constants(c):
                     for row in re.findall(r"\{([^{}]*)\}", body)]
         return [float(x) for x in re.findall(r"[-+]?\d*\.\d+(?:[eE][-+]?\d+)?", body)]
 
+    # which variant of reb_whfast_apply_corrector2 does the tree have (see RV.Sync.corrector2Ops)?
+    m = re.search(r"static void reb_whfast_apply_corrector2\(.*?\n\}", src, flags=re.S)
+    body = m.group(0) if m else ""
+    if "reb_whfast_operator_Uinv" in body and re.search(r"if\s*\(\s*inv\s*>\s*0", body):
+        K["c2fixed"] = 1
+    elif re.search(r"a\s*=\s*0\.5\s*\*\s*inv\s*\*\s*r->dt", body) and body.count("reb_whfast_operator_U(") == 2:
+        K["c2fixed"] = 0
+    else:
+        K["c2fixed"] = 0
+        c.broken.append("proof obligation: reb_whfast_apply_corrector2 has neither of the two modelled shapes")
+    c.cov["corrector2_source_variant"] = "repaired (Uinv, reversed order)" if K["c2fixed"] else "as found (sign flip of a and b: F18)"
     K["SC"] = table("reb_saba_c", True)
     K["SD"] = table("reb_saba_d", True)
     K["SCC"] = table("reb_saba_cc", False)
@@ -91,7 +102,7 @@ def gen_system(rng, jacobi_only=False):
     a = rng.uniform(0.6, 1.4)
     amin = a
     for i in range(npl + ntp):
-        m = 0.0 if i >= npl else rng.loguniform(1e-6, 3e-3)
+        m = 0.0 if i >= npl else rng.loguniform(1e-6, 1e-3)
         e = rng.uniform(0.0, 0.25)
         inc = rng.uniform(0.0, 0.2)
         f = rng.uniform(0, 2 * math.pi)
@@ -104,7 +115,7 @@ def gen_system(rng, jacobi_only=False):
         x, y, z = co * xo - so * yo * ci, so * xo + co * yo * ci, yo * si
         vx, vy, vz = co * vxo - so * vyo * ci, so * vxo + co * vyo * ci, vyo * si
         ps.append((m, x, y, z, vx, vy, vz))
-        a *= rng.uniform(1.5, 2.1)
+        a *= rng.uniform(1.6, 2.2)
     # shuffle test particles in only at the end (N_active semantics need them last)
     off = [rng.normal() * 0.3 for _ in range(6)]
     ps = [(p[0],) + tuple(p[1 + k] + off[k] for k in range(6)) for p in ps]
@@ -137,6 +148,11 @@ class World:
         lib.reb_integrator_whfast_init.argtypes = [ctypes.c_void_p]
         lib.reb_integrator_whfast_init.restype = ctypes.c_int
         lib.reb_simulation_energy.restype = D
+        lib.reb_integrator_mercurius_calculate_dcrit_for_particle.argtypes = [ctypes.c_void_p, ctypes.c_uint]
+        lib.reb_integrator_mercurius_calculate_dcrit_for_particle.restype = D
+        self.libc = ctypes.CDLL(None)
+        self.libc.malloc.restype = ctypes.c_void_p
+        self.libc.malloc.argtypes = [ctypes.c_size_t]
 
     # -- construction
     def sim(self, system, integrator, setup):
@@ -240,6 +256,73 @@ class World:
                 ctypes.memmove(ctypes.addressof(s.ri_whfast._p_jh.contents), st["saved"], N * self.psz)
             elif name == "T":
                 s.t = s.t + ev(arg, dt, K)
+            elif name == "mAllocD":
+                rim = s.ri_mercurius
+                rim._dcrit = ctypes.cast(self.libc.malloc(8 * N), ctypes.POINTER(D))
+                rim._N_allocated_dcrit = N
+            elif name == "mAllocT":
+                rim = s.ri_mercurius
+                rim._particles_backup = ctypes.cast(self.libc.malloc(self.psz * N), ctypes.POINTER(self.P))
+                rim._encounter_map = ctypes.cast(self.libc.malloc(4 * N), ctypes.POINTER(ctypes.c_int))
+                rim._N_allocated = N
+            elif name == "mToDh":
+                lib.reb_integrator_mercurius_inertial_to_dh(r)
+            elif name == "mToI":
+                lib.reb_integrator_mercurius_dh_to_inertial(r)
+            elif name == "mDcrit":
+                rim = s.ri_mercurius
+                rim._dcrit[0] = 2. * s._particles[0].r
+                for i in range(1, N):
+                    rim._dcrit[i] = lib.reb_integrator_mercurius_calculate_dcrit_for_particle(r, ctypes.c_uint(i))
+            elif name == "mSetup":
+                rim = s.ri_mercurius
+                s._gravity = 4                 # REB_GRAVITY_MERCURIUS
+                rim.mode = 0
+                if not rim._L:
+                    FT = type(rim._L)
+                    rim._L = FT(("reb_integrator_mercurius_L_mercury", lib))
+            elif name == "mI":
+                lib.reb_integrator_mercurius_interaction_step(r, ev(arg, dt, K))
+            elif name == "mJ":
+                lib.reb_integrator_mercurius_jump_step(r, ev(arg, dt, K))
+            elif name == "mC":
+                lib.reb_integrator_mercurius_com_step(r, ev(arg, dt, K))
+            elif name == "mKE":
+                rim = s.ri_mercurius
+                ctypes.memmove(ctypes.addressof(rim._particles_backup.contents), ctypes.addressof(s._particles.contents), N * self.psz)
+                lib.reb_integrator_mercurius_kepler_step(r, ev(arg, dt, K))
+                # encounter_predict / encounter_step are static: the replay is restricted to steps
+                # without close encounter (checked on the twin), where they change nothing persisted
+            elif name == "sabaInit":
+                if arg == "1":
+                    s._gravity = 5            # REB_GRAVITY_JACOBI
+                else:
+                    s.gravity_ignore = 1
+            elif name == "posJA":
+                lib.reb_particles_transform_jacobi_to_inertial_pos(s._particles, s.ri_whfast._p_jh, s._particles,
+                                                                   ctypes.c_uint(N), ctypes.c_uint(N))
+            elif name == "jacAccA":
+                lib.reb_particles_transform_inertial_to_jacobi_acc(s._particles, s.ri_whfast._p_jh, s._particles,
+                                                                   ctypes.c_uint(N), ctypes.c_uint(N))
+            elif name == "toIA":
+                lib.reb_particles_transform_jacobi_to_inertial_posvel(s._particles, s.ri_whfast._p_jh, s._particles,
+                                                                      ctypes.c_uint(N), ctypes.c_uint(N))
+            elif name == "sabaFold":
+                pj, pp = s.ri_whfast._p_jh, s._particles
+                pre = dt * dt
+                for i in range(N):
+                    pp[i].ax = pre * pj[i].ax
+                    pp[i].ay = pre * pj[i].ay
+                    pp[i].az = pre * pj[i].az
+            elif name == "sabaLazyKick":
+                pj = s.ri_whfast._p_jh
+                pre = ev(arg, dt, K) * 12.
+                for i in range(1, N):
+                    t = st["tmp"][i]
+                    pj[i].vx = pj[i].vx + pre * (pj[i].ax - t[3])
+                    pj[i].vy = pj[i].vy + pre * (pj[i].ay - t[4])
+                    pj[i].vz = pj[i].vz + pre * (pj[i].az - t[5])
+                    pj[i].x, pj[i].y, pj[i].z = t[:3]
             else:
                 raise Infra("replay: unknown primitive " + p)
 
@@ -289,33 +372,62 @@ def whfast_setup(o):
     return f
 
 
-def replay_whfast(c, W, exe, ncases):
+def saba_setup(o):
+    def f(s):
+        s.ri_saba._type = o["type"]
+        s.ri_saba.safe_mode = o["safe"]
+        s.ri_saba.keep_unsynchronized = o["keep"]
+    return f
+
+
+def replay(c, W, exe, ncases, family):
+    """family: 'whfast' | 'saba'.  Twin simulations: A runs the real API calls, B executes the
+    model's primitive-call list; everything persisted must agree bit for bit after every op."""
     lines, cases = [], []
     for case in range(ncases):
         rng = c.rng.fork()
-        o = whfast_options(rng)
         system = gen_system(rng)
         ops = gen_ops(rng, rng.randint(3, 9))
         if "s" not in ops:
             ops.append("s")
-        lines.append("W %d %d %d %d %d %d 1 0 0 %s" % (o["coord"], o["kernel"], o["corrector"], o["corrector2"],
-                                                       o["safe"], o["keep"], " ".join(ops)))
-        cases.append((o, system, ops))
+        if family == "whfast":
+            o = whfast_options(rng)
+            lines.append("W %d %d %d %d %d %d %d 1 0 0 %s" % (o["coord"], o["kernel"], o["corrector"], o["corrector2"],
+                                                              o["safe"], o["keep"], W.K["c2fixed"], " ".join(ops)))
+            setup = whfast_setup(o)
+            key = (o["coord"], o["kernel"], o["corrector"], o["corrector2"], o["safe"], o["keep"])
+        else:
+            mode = rng.choice(["safe", "unsafe", "unsafe", "keep", "keep"])
+            o = dict(type=rng.choice(sorted(SABA_ROWS)), safe=int(mode == "safe"), keep=int(mode == "keep"))
+            if rng.chance(0.7):
+                system["N_active"], system["testparticle_type"] = -1, 0
+            lines.append("S %d %d %d 1 0 0 %s" % (o["type"], o["safe"], o["keep"], " ".join(ops)))
+            setup = saba_setup(o)
+            key = (o["type"], o["safe"], o["keep"])
+        cases.append((o, system, ops, setup, key))
     out = run_driver(exe, lines)
     if len(out) != len(lines):
         c.corr_break("drv_c09 returned %d lines for %d cases" % (len(out), len(lines)))
         return
     nprims = 0
     hist = {}
-    for (o, system, ops), line, model in zip(cases, lines, out):
-        A = W.sim(system, "whfast", whfast_setup(o))
-        B = W.sim(system, "whfast", whfast_setup(o))
+    predicted_crashes = [0]
+    for (o, system, ops, setup, key), line, model in zip(cases, lines, out):
+        A = W.sim(system, family, setup)
+        B = W.sim(system, family, setup)
+        fl_of = (lambda s: s.ri_whfast.is_synchronized) if family == "whfast" else (lambda s: s.ri_saba.is_synchronized)
         st = {}
         segs = model.split(";")
+        if segs and segs[-1].startswith("error crash"):
+            # the model says the real call dereferences NULL here: never made in-process, the
+            # subprocess probe of search() exhibits it on the real code
+            predicted_crashes[0] += 1
+            segs = segs[:-1]
+            ops = ops[:len(segs)]
         if len(segs) != len(ops):
             c.corr_break("model output has %d segments for %d ops" % (len(segs), len(ops)), {"line": line, "model": model[:300]})
             return
-        prng = SplitMix(c.seed * 7919 + len(lines))
+        prng = SplitMix(c.seed * 7919 + len(line))
         for k, (op, seg) in enumerate(zip(ops, segs)):
             prims, _, fl = seg.partition("@")
             prims = [p for p in prims.split(",") if p]
@@ -339,27 +451,180 @@ def replay_whfast(c, W, exe, ncases):
             nprims += len(prims)
             a, b = W.snap(A), W.snap(B)
             # p_jh is uninitialised heap until the first from_inertial; its acceleration members are
-            # never written in the heliocentric coordinate systems: compare pos / vel / m of p_jh
-            # (nor the mass member of test particles in barycentric coordinates, transformations.c:611-613)
+            # never written in the heliocentric coordinate systems (nor the mass member of test
+            # particles in barycentric coordinates, transformations.c:611-613): compare pos / vel / m
             nact = A.N if (A.N_active == -1 or A.testparticle_type == 1) else A.N_active
             for q in (a, b):
                 q["p_jh"] = [x[:48] + (x[72:80] if i < nact else b"") for i, x in enumerate(q["p_jh"])] \
                     if (q["p_jh"] is not None and st.get("pj_defined")) else None
-            aflags = [A.ri_whfast.is_synchronized, A.ri_whfast.recalculate_coordinates_this_timestep,
-                      int(A.ri_whfast._N_allocated == A.N)]
+            aflags = [fl_of(A), A.ri_whfast.recalculate_coordinates_this_timestep, int(A.ri_whfast._N_allocated == A.N)]
             if a != b or aflags != mflags:
                 what = "flags" if aflags != mflags else [k2 for k2 in a if a[k2] != b[k2]][0]
-                c.corr_break("WHFast schedule replay differs from reb_simulation_%s in %s (op %d of '%s', options %s)"
-                             % ("step" if op == "s" else "synchronize", what, k, " ".join(ops), o),
+                c.corr_break("%s schedule replay differs from reb_simulation_%s in %s (op %d of '%s', options %s)"
+                             % (family, "step" if op == "s" else "synchronize", what, k, " ".join(ops), o),
                              {"driver_line": line, "op_index": k, "model_prims": prims, "model_flags": mflags,
                               "real_flags": aflags, "system": system, "options": o})
                 return
-            c.count(("replay", o["coord"], o["kernel"], o["corrector"], o["corrector2"], o["safe"], o["keep"], op),
-                    nontrivial=(op in "sy"))
-        hk = "c%d k%d" % (o["coord"], o["kernel"])
+            c.count(("replay", family) + key + (op,), nontrivial=(op in "sy"))
+        hk = " ".join(str(x) for x in key[:2])
         hist[hk] = hist.get(hk, 0) + 1
-    c.cov["replay_whfast"] = {"cases": ncases, "primitive_calls_executed": nprims, "coord_kernel_histogram": hist}
+    c.cov["replay_" + family] = {"cases": ncases, "primitive_calls_executed": nprims, "histogram": hist,
+                                 "sequences_cut_at_a_predicted_crash": predicted_crashes[0]}
     c.sample({"replay_line": lines[0], "model": out[0][:300]})
+
+
+def replay_mercurius(c, W, exe, ncases):
+    lines, cases = [], []
+    for case in range(ncases):
+        rng = c.rng.fork()
+        system = gen_system(rng)
+        # wide, light systems: no close encounters (the encounter branch is static C, not replayable)
+        system["particles"] = [p if i == 0 else (p[0] * 0.01,) + p[1:] for i, p in enumerate(system["particles"])]
+        ops = gen_ops(rng, rng.randint(3, 9))
+        if "s" not in ops:
+            ops.append("s")
+        safe = int(rng.chance(0.35))
+        lines.append("M %d 1 0 0 0 0 %s" % (safe, " ".join(ops)))
+        cases.append((safe, system, ops))
+    out = run_driver(exe, lines)
+    if len(out) != len(lines):
+        c.corr_break("drv_c09 returned %d lines for %d mercurius cases" % (len(out), len(lines)))
+        return
+    nprims = nenc = 0
+
+    def msnap(s):
+        rim = s.ri_mercurius
+        d = {"particles": W.pbytes(s._particles, s.N), "t": d2h(s.t),
+             "com": [d2h(getattr(v, k)) for v in (rim._com_pos, rim._com_vel) for k in ("x", "y", "z")],
+             "dcrit": [d2h(rim._dcrit[i]) for i in range(s.N)] if rim._N_allocated_dcrit >= s.N else None}
+        return d
+
+    for (safe, system, ops), line, model in zip(cases, lines, out):
+        def setup(s):
+            s.ri_mercurius.safe_mode = safe
+        A = W.sim(system, "mercurius", setup)
+        B = W.sim(system, "mercurius", setup)
+        st = {}
+        segs = model.split(";")
+        prng = SplitMix(c.seed * 7919 + len(line))
+        for k, (op, seg) in enumerate(zip(ops, segs)):
+            prims, _, fl = seg.partition("@")
+            prims = [p for p in prims.split(",") if p]
+            mflags = [int(x) for x in fl.split()]
+            if op == "s":
+                W.lib.reb_simulation_step(ctypes.byref(A))
+            elif op == "y":
+                W.lib.reb_simulation_synchronize(ctypes.byref(A))
+            elif op == "r":
+                W.lib.reb_simulation_energy(ctypes.byref(A))
+            elif op == "f":
+                A.ri_mercurius.recalculate_coordinates_this_timestep = 1
+            elif op == "p":
+                i = prng.randint(0, A.N - 1)
+                dv = prng.uniform(-1e-3, 1e-3)
+                A.particles[i].vy += dv
+                B.particles[i].vy += dv
+            if op == "s" and A.ri_mercurius._encounter_N > 1:
+                nenc += 1
+                break          # a close encounter happened: outside the replayable part
+            W.execute(B, [p for p in prims if p != "warn"], st)
+            nprims += len(prims)
+            a, b = msnap(A), msnap(B)
+            rim = A.ri_mercurius
+            aflags = [rim.is_synchronized, rim.recalculate_coordinates_this_timestep, rim.recalculate_r_crit_this_timestep,
+                      int(rim._N_allocated_dcrit >= A.N), int(rim._N_allocated >= A.N)]
+            if a != b or aflags != mflags:
+                what = "flags" if aflags != mflags else [k2 for k2 in a if a[k2] != b[k2]][0]
+                c.corr_break("mercurius schedule replay differs from reb_simulation_%s in %s (op %d of '%s', safe_mode=%d)"
+                             % ("step" if op == "s" else "synchronize", what, k, " ".join(ops), safe),
+                             {"driver_line": line, "op_index": k, "model_prims": prims, "model_flags": mflags,
+                              "real_flags": aflags, "system": system})
+                return
+            c.count(("replay", "mercurius", safe, op, tuple(mflags)), nontrivial=(op in "sy"))
+    c.cov["replay_mercurius"] = {"cases": ncases, "primitive_calls_executed": nprims, "cases_cut_at_a_close_encounter": nenc}
+
+
+# ----------------------------------------------------------------------------- footprint table
+COMPS = ["pj", "pos", "vel", "acc"]
+
+
+def comp_get(W, s):
+    pj = W.pbytes(s.ri_whfast._p_jh, s.N)
+    pp = W.pbytes(s._particles, s.N)
+    return {"pj": pj, "pos": [x[0:24] for x in pp], "vel": [x[24:48] for x in pp], "acc": [x[48:72] for x in pp]}
+
+
+def comp_perturb(W, s, comp, rng):
+    n = s.N
+    if comp == "pj":
+        a = s.ri_whfast._p_jh
+        fields = ["x", "y", "z", "vx", "vy", "vz", "ax", "ay", "az"]
+    else:
+        a = s._particles
+        fields = {"pos": ["x", "y", "z"], "vel": ["vx", "vy", "vz"], "acc": ["ax", "ay", "az"]}[comp]
+    for i in range(n):
+        for f in fields:
+            v = getattr(a[i], f)
+            setattr(a[i], f, v * (1 + 1e-3 * rng.uniform(-1, 1)) + 1e-5 * rng.uniform(-1, 1))
+
+
+def footprints(c, W, exe):
+    """the dependency matrix of the Lean model (`transfer`) tested on the real primitives:
+    perturb one input component in a twin, every output component the model calls independent
+    of it must come out bit-identical; components the model calls untouched must not change."""
+    out = run_driver(exe, ["FOOT"])[0].split()
+    table = {}
+    for item in out:
+        name, _, rows = item.partition("/")
+        table[name] = [[ch == "1" for ch in row] for row in rows.split("|")]
+    want = 14
+    if len(table) != want:
+        c.broken.append("proof obligation: footprint table has %d primitives, expected %d" % (len(table), want))
+    selfmaps = {("K", 0), ("C", 0), ("J", 0)}
+    ntests = 0
+    rng = c.rng.fork()
+    for coord in range(4):
+        for name, dep in sorted(table.items()):
+            base = name.partition("=")[0]
+            if coord != 0 and base in ("posJ", "jerk", "jacAcc", "posJA", "jacAccA", "toIA"):
+                continue
+            if base == "posB" and coord != 3:
+                continue
+            system = gen_system(rng)
+            if base in ("posJA", "jacAccA", "toIA", "jerk"):
+                system["N_active"], system["testparticle_type"] = -1, 0
+            o = dict(coord=coord, kernel=0, corrector=0, corrector2=0, safe=0, keep=0)
+            prep = ["init", "fromI", "K=F:1:2", "toI", "upd", "I=F:1:2"]
+
+            def fresh():
+                s = W.sim(system, "whfast", whfast_setup(o))
+                W.execute(s, prep, {})
+                return s
+            A = fresh()
+            before = comp_get(W, A)
+            W.execute(A, [name], {})
+            after = comp_get(W, A)
+            for j, cj in enumerate(COMPS):
+                only_self = all(dep[j][k] == (k == j) for k in range(6))
+                if only_self and (base, j) not in selfmaps and before[cj] != after[cj]:
+                    c.corr_break("footprint: primitive %s changes component %s which the model says it leaves untouched (coordinates %s)"
+                                 % (name, cj, COORD_NAMES[coord]), {"primitive": name, "component": cj, "system": system})
+                    return
+            for k, ck in enumerate(COMPS):
+                B = fresh()
+                comp_perturb(W, B, ck, rng)
+                W.execute(B, [name], {})
+                got = comp_get(W, B)
+                for j, cj in enumerate(COMPS):
+                    if not dep[j][k]:
+                        ntests += 1
+                        if got[cj] != after[cj]:
+                            c.corr_break("footprint: output %s of primitive %s depends on input %s, the model says it does not (coordinates %s)"
+                                         % (cj, name, ck, COORD_NAMES[coord]),
+                                         {"primitive": name, "output": cj, "input": ck, "system": system, "options": o})
+                            return
+                c.count(("footprint", name, coord, ck))
+    c.cov["footprint_independence_tests"] = ntests
 
 
 # ----------------------------------------------------------------------------- search on the real code
@@ -454,12 +719,61 @@ def interrupt(W, s, kind, tmpdir, allow_sync):
 KINDS = ["sync", "sync2", "energy", "angmom", "orbits", "copy", "save", "com"]
 
 
+PROBE = r"""
+import sys
+sys.path.insert(0, %r)
+sys.path.insert(0, %r)
+from common import use_scratch_rebound
+rebound = use_scratch_rebound(%r)
+integ, keep, nsteps = sys.argv[1], int(sys.argv[2]), int(sys.argv[3])
+s = rebound.Simulation()
+s.add(m=1.); s.add(m=1e-3, a=1.); s.add(m=1e-4, a=2.1)
+s.integrator = integ
+s.dt = 0.05
+for ri in (s.ri_whfast, s.ri_saba, s.ri_eos, s.ri_mercurius):
+    ri.safe_mode = 0
+if keep:
+    s.ri_whfast.keep_unsynchronized = 1
+    s.ri_saba.keep_unsynchronized = 1
+for k in range(nsteps):
+    rebound.clibrebound.reb_simulation_step(__import__("ctypes").byref(s))
+rebound.clibrebound.reb_simulation_synchronize(__import__("ctypes").byref(s))
+rebound.clibrebound.reb_simulation_synchronize(__import__("ctypes").byref(s))
+print("survived")
+"""
+
+
+def probe_first_call(c, d):
+    """synchronize as the very first call (and after one step) in a child process: must not crash"""
+    import subprocess
+    script = PROBE % (os.path.dirname(os.path.abspath(__file__)), d, d)
+    res = {}
+    for integ in ("whfast", "saba", "eos", "mercurius"):
+        for keep in (0, 1):
+            if keep and integ in ("eos", "mercurius"):
+                continue
+            for nsteps in (0, 1):
+                p = subprocess.run([sys.executable, "-c", script, integ, str(keep), str(nsteps)], capture_output=True,
+                                   text=True, timeout=120)
+                ok = p.returncode == 0 and "survived" in p.stdout
+                res["%s keep=%d steps=%d" % (integ, keep, nsteps)] = "ok" if ok else "rc=%d" % p.returncode
+                c.count(("probe", integ, keep, nsteps))
+                if not ok:
+                    key = "F19:saba-sync-keep-null-pjh" if (integ == "saba" and keep and nsteps == 0 and p.returncode < 0) \
+                        else "crash:%s" % integ
+                    c.violation(key, "%s, keep_unsynchronized=%d: synchronize after %d steps ends the process (rc=%d)"
+                                % (integ, keep, nsteps, p.returncode),
+                                {"integrator": integ, "keep_unsynchronized": keep, "safe_mode": 0, "steps_before": nsteps,
+                                 "calls": ["synchronize", "synchronize"], "returncode": p.returncode, "stderr": p.stderr[-400:]})
+    c.cov["first_call_probe"] = res
+
+
 def search(c, W):
     rng0 = c.rng.fork()
     cfgs = integrator_configs(rng0, c.thorough)
     tmpdir = tempfile.mkdtemp(prefix="c09.", dir=os.environ.get("VERIF_TMP", "/tmp"))
     common._scratch.append(tmpdir)
-    nsys = 3 if c.thorough else 1
+    nsys = 8 if c.thorough else 1
     nsteps_bit = 40 if c.thorough else 20
     nsteps_phys = 500 if c.thorough else 150
     worst = {}
@@ -547,7 +861,18 @@ def search(c, W):
             if integ != "eos":
                 worst[fam] = max(worst.get(fam, 0.0), err)
                 worst[label] = max(worst.get(label, 0.0), err)
+                chaos = None
                 if not err <= 1e-10:
+                    # is the system so chaotic that a last-bit perturbation grows to this size?
+                    sp = dict(system)
+                    sp["particles"] = [p if i != 1 else (p[0], p[1] * (1 + 2.0 ** -50)) + tuple(p[2:]) for i, p in enumerate(system["particles"])]
+                    Ap = W.sim(sp, integ, mk("safe"))
+                    for k in range(nsteps_phys):
+                        W.lib.reb_simulation_step(ctypes.byref(Ap))
+                    cp = coords(W, Ap)
+                    chaos = max(max(abs(a[k] - b[k]) / (scale_x if k < 3 else scale_v) for k in range(6)) for a, b in zip(ca, cp))
+                    c.cov.setdefault("chaos_controls", []).append({"label": label, "difference": err, "last_bit_perturbation_grows_to": chaos})
+                if not err <= 1e-10 and not err <= 1e4 * chaos:
                     c.violation("F18:whfast-corrector2-not-inverse" if is_c2 else "safe-unsafe:" + fam, "%s: unsafe mode + final synchronize differs from safe mode by %.3g relative after %d steps"
                                 % (label, err, nsteps_phys),
                                 {"integrator": integ, "label": label, "system": system, "steps": nsteps_phys,
@@ -595,7 +920,11 @@ def run(c):
                       "physics theorems assume exact group laws of the primitives (true in exact arithmetic, to rounding in IEEE)",
                       "WHFast512 is not compiled on this host (no AVX512): not covered",
                       "variational particles / MEGNO, additional forces, collisions are outside the model"]
-    replay_whfast(c, W, exe, 400 if c.thorough else 60)
+    footprints(c, W, exe)
+    replay(c, W, exe, 2000 if c.thorough else 60, "whfast")
+    replay(c, W, exe, 1200 if c.thorough else 40, "saba")
+    replay_mercurius(c, W, exe, 800 if c.thorough else 30)
+    probe_first_call(c, d)
     search(c, W)
 
 
